@@ -9,3 +9,5 @@ pub mod modular;
 pub mod icc;
 pub mod codestream;
 pub mod imggen;
+pub mod container;
+pub mod dctref;
